@@ -56,6 +56,20 @@ pub fn run(tier: &str, seed: u64, out: &Path) -> i32 {
             cases.push((p.name.clone(), src, cfg));
         }
     }
+    // generated import / mod / extern crate groups over an identifier universe aimed at the ordering code
+    let import_opts: Vec<(String, String)> = singles.iter().filter(|(k, _)| k.starts_with("imports_") || k == "group_imports" || k.starts_with("reorder_")).cloned().collect();
+    for k in 0..(if thorough { 4000 } else { 600 }) {
+        let src = import_program(&mut rng);
+        let mut cfg: Vec<(String, String)> = vec![];
+        if rng.chance(1, 2) {
+            let (a, b) = rng.pick(&import_opts).clone();
+            cfg.push((a, b));
+        }
+        if rng.chance(1, 4) {
+            cfg = merge_cfg(&cfg, &[("max_width".into(), rng.pick(WIDTHS_QUICK).to_string())]);
+        }
+        cases.push((format!("gen-imports{}", k), src, cfg));
+    }
     o.count_n("cases", cases.len() as u64);
     // current tree, in-process, every released edition
     let mut jobs = vec![];
